@@ -42,17 +42,23 @@ func writeChunk(rows [][]string) (*os.File, error) {
 	if err != nil {
 		return nil, err
 	}
+	// a chunk that cannot be written in full is of no use to anybody: don't leave it behind
+	discard := func(err error) (*os.File, error) {
+		f.Close()
+		os.Remove(f.Name())
+		return nil, err
+	}
 	enc := objects.NewStrListEncoder(true)
 	for _, row := range rows {
 		b := enc.Encode(row)
 		_, err := f.Write(b)
 		if err != nil {
-			return nil, err
+			return discard(err)
 		}
 	}
 	_, err = f.Seek(0, io.SeekStart)
 	if err != nil {
-		return nil, err
+		return discard(err)
 	}
 	return f, nil
 }
